@@ -469,6 +469,10 @@ def b_type(I, a, k):
         return TypeTag('str')
     if v is None:
         return TypeTag('NoneType')
+    if isinstance(v, slice):
+        return TypeTag('slice')
+    if isinstance(v, Ref) and v.kind in ('dict', 'set'):
+        return TypeTag(v.kind)
     raise Unsupported('type(%r)' % (v,))
 
 
